@@ -388,6 +388,10 @@ func flight4Generate(
 				dtlserrors.ErrNoAvailableCertificateCipherSuite
 		}
 
+		if dtlsAlert, err := ensureLocalKeypair(state); err != nil {
+			return nil, dtlsAlert, err
+		}
+
 		// Find compatible signature scheme
 		signatureHashAlgo, err := signaturehash.SelectSignatureScheme(cfg.LocalSignatureSchemes, signer)
 		if err != nil {
@@ -475,6 +479,9 @@ func flight4Generate(
 			IdentityHint: cfg.LocalPSKIdentityHint,
 		}
 		if state.CipherSuite.KeyExchangeAlgorithm().Has(ciphersuite.KeyExchangeAlgorithmEcdhe) {
+			if dtlsAlert, err := ensureLocalKeypair(state); err != nil {
+				return nil, dtlsAlert, err
+			}
 			srvExchange.EllipticCurveType = elliptic.CurveTypeNamedCurve
 			srvExchange.NamedCurve = state.NamedCurve
 			srvExchange.PublicKey = state.LocalKeypair.PublicKey
